@@ -54,27 +54,30 @@ type l2Block struct {
 }
 
 type jWorld struct {
-	strayIdx    int // mainnet claims generated with non-zero rollup-index bits in their global index
-	l1          *fakechain.Chain
-	l1store     *l1infotreesync.L1InfoTreeSync
-	l2store     *bridgesync.BridgeSync
-	l1path      string
-	l2path      string
-	mainDeps    []srcDep
-	rollDeps    map[uint32][]srcDep
-	rollVerif   map[uint32]int
-	rollLER     map[uint32]common.Hash
-	infos       []infoRec
-	infoFront   ref.Frontier
-	infoRoots   []common.Hash
-	l2blocks    []l2Block
-	l2front     ref.Frontier
-	l2roots     []common.Hash // root after deposit i
-	l2next      uint64
-	claimed     map[string]bool
-	l1Finalized uint64
-	cleanups    []func()
-	seq         int
+	// noJumps: no block-number jumps (set when the node has a certificate size limit: its limitCertSize walks such a range
+	// block by block, copying the event slices at every step - tens of seconds of CPU per certificate, observation O9)
+	noJumps, jumped bool
+	strayIdx        int // mainnet claims generated with non-zero rollup-index bits in their global index
+	l1              *fakechain.Chain
+	l1store         *l1infotreesync.L1InfoTreeSync
+	l2store         *bridgesync.BridgeSync
+	l1path          string
+	l2path          string
+	mainDeps        []srcDep
+	rollDeps        map[uint32][]srcDep
+	rollVerif       map[uint32]int
+	rollLER         map[uint32]common.Hash
+	infos           []infoRec
+	infoFront       ref.Frontier
+	infoRoots       []common.Hash
+	l2blocks        []l2Block
+	l2front         ref.Frontier
+	l2roots         []common.Hash // root after deposit i
+	l2next          uint64
+	claimed         map[string]bool
+	l1Finalized     uint64
+	cleanups        []func()
+	seq             int
 }
 
 func newJWorld() (*jWorld, error) {
@@ -327,7 +330,8 @@ func (w *jWorld) makeClaim(src claimSrc, num, pos uint64) bridgesync.Claim {
 func (w *jWorld) addL2Block(ch choose.Chooser, nBridges int, claims []claimSrc) error {
 	num := w.l2next
 	w.l2next++
-	if ch.Int(0, 11, "l2NumberJump") == 11 {
+	if ch.Int(0, 11, "l2NumberJump") == 11 && !w.noJumps {
+		w.jumped = true
 		// block numbers are not contiguous in the stores (blocks without events are not recorded): sometimes the next
 		// event block is more than 2^16 blocks away, so a certificate's block range does not fit 16 bits
 		w.l2next += 65536 + uint64(ch.Int(0, 5000, "l2JumpExtra"))
